@@ -37,16 +37,22 @@ def run(ctx):
     if n < 1000:
         raise vlib.ToolError("too few command cases: %d" % n)
     odd = 0
+    multi_odd_str = 0
     with open(cases) as f:
         for i, ln in enumerate(f):
             c = json.loads(ln)
             if any((sum(len(x) for x in e["v"]) + max(0, len(e["v"]) - 1)) % 2 for e in c["elems"]):
                 odd += 1
+            if sum(1 for e in c["elems"] if e.get("form") == "str" and len(e["v"][0]) % 2) >= 2:
+                multi_odd_str += 1
             if i in (0, n // 2, n - 1):
                 ctx.sample(c)
     if odd == 0:
         raise vlib.ToolError("vacuity: no case with an odd-length value (padding never counted)")
+    if multi_odd_str == 0:
+        raise vlib.ToolError("vacuity: no case with two or more odd-length single-string values")
     ctx.extra_cov["cases_with_odd_length_value"] = odd
+    ctx.extra_cov["cases_with_two_or_more_odd_single_strings"] = multi_odd_str
     rep = vlib.run_driver("drv_command", ["cases", "--cases", cases], env=env)
     ctx.cov["evaluations"] += rep["cases"]
     ctx.cov["distinct_nontrivial"] += rep["cases"]
